@@ -169,7 +169,7 @@ impl SmartCalcConfig {
         }
 
         for (timezone, offset) in config.json_data.timezones.iter() {
-            config.timezones.insert(timezone.clone(), *offset);
+            config.timezones.insert(timezone.to_uppercase(), *offset);
         }
 
         for (from, to) in config.json_data.alias.iter() {
